@@ -16,7 +16,7 @@ pub fn def() -> CheckDef {
 fn meta(_ctx: &Ctx) -> Meta {
     Meta {
         level: "exploration",
-        rule: "seeded random PackageBuilder configurations (any subset of optional metadata, strings incl. empty/multi-line/multi-byte/1 KiB, 0..6 files at depth 0..6 incl. the root directory, '/'- and './'-style destinations, explicit and inherited modes, dirs, symlinks, owners, flags, caps, 0..8 dependencies of the eight kinds, nine scriptlets with flags/interpreters, changelog, every compression type and level, signed and unsigned) are built, written, parsed again and every supplied value is compared with the matching accessor. distinct_nontrivial = distinct configurations (by content hash) that built, were re-parsed and reached the field comparison".into(),
+        rule: "seeded random PackageBuilder configurations (any subset of optional metadata, strings incl. empty/multi-line/multi-byte/1 KiB, 0..6 files at depth 0..6 incl. the root directory, '/'- and './'-style destinations, explicit and inherited modes, dirs, symlinks, link targets on entries of other types, owners, flags, caps, 0..8 dependencies of the eight kinds, nine scriptlets with flags/interpreters, changelog, every compression type and level, signed and unsigned) are built, written, parsed again and every supplied value is compared with the matching accessor. distinct_nontrivial = distinct configurations (by content hash) that built, were re-parsed and reached the field comparison".into(),
         assumptions: vec!["source files and their mtimes/permissions are created by the harness on the local file system".into()],
         floor_distinct: 50,
     }
@@ -293,7 +293,15 @@ fn run(ctx: &Ctx, rep: &Report) {
     let base = ctx.work_dir("build");
     par_for(ctx.threads, n, 1, |i| {
         let mut rng = Rng::for_case(ctx.seed, "C06", i);
-        let cfg = gen_cfg(&mut rng, &GenOpts { big_percent: 1, big_bytes: (200_000, 600_000), ..Default::default() });
+        let mut cfg = gen_cfg(&mut rng, &GenOpts { big_percent: 1, big_bytes: (200_000, 600_000), ..Default::default() });
+        // an option combination the generator's file kinds never pair: a link target on an entry whose mode
+        // (explicit or inherited, regular or directory) is not a link. It is a supplied value like any other
+        // and must be read back (seeded change C06-t: FILELINKTOS filled in for link modes only)
+        if i % 5 == 4 {
+            if let Some(f) = cfg.files.iter_mut().find(|f| f.symlink.is_none()) {
+                f.symlink = Some(["/usr/bin/target-b", "rel/target", "ünï"][(i / 5 % 3) as usize].to_string());
+            }
+        }
         let dir = base.join(format!("c{i}"));
         let mut local = BTreeMap::new();
         // every 8th configuration is signed (Ed25519 / ECDSA are cheap; RSA occasionally)
